@@ -8,7 +8,7 @@ use serde_json::{json, Value};
 use std::cell::Cell;
 
 pub fn subs() -> Vec<Sub> {
-    vec![Sub { name: "buffers", run: run_buffers }]
+    vec![Sub { name: "buffers", run: run_buffers }, Sub { name: "hugebuf", run: run_hugebuf }]
 }
 
 /// hashes x 3 forms x every buffer length 0..=N+64 x prefill kinds.
@@ -45,7 +45,81 @@ fn run_buffers(ctx: &Ctx) -> CheckResult {
     Ok(())
 }
 
-pub fn replay(ctx: &Ctx, _check: &str, case: &Value) -> Result<(), String> {
+/// Buffer lengths that do not fit in 32 bits: a lazily mapped all-zero slab of 2^32 + 4096
+/// bytes (virtual memory only); every form into slices of 2^32, 2^32 + n - 1, 2^32 + n and
+/// 2^32 + 4096 bytes.  "At least the advertised size" must not be decided on a truncated length.
+/// After each store the first n bytes are compared and cleared; the window after them and the
+/// end of the slice must still be zero, and one full scan at the end finds any stray write.
+pub fn case_hugebuf(va: &dyn crate::api::VariantApi, b: &[u8], slab: &mut [u8]) -> Result<u64, String> {
+    let v = va.v();
+    let h = va.try_from_array(b).map_err(|e| format!("{}: TryFrom rejected {} with {:?}", v.name, hex(b), e))?;
+    let mut evals = 0;
+    for form in FORMS {
+        let (n, repr) = match form {
+            Form::Bytes => (v.size(), b.to_vec()),
+            Form::Hex => (v.len_hex(), vmodel::text::encode(v, b, false)),
+            Form::HexPrefix => (v.len_str(), vmodel::text::encode(v, b, true)),
+        };
+        for l in [1usize << 32, (1usize << 32) + n - 1, (1usize << 32) + n, (1usize << 32) + 4096] {
+            let buf = &mut slab[..l];
+            evals += 1;
+            let r = crate::ctx::catch(std::panic::AssertUnwindSafe(|| match form {
+                Form::Bytes => h.store_bytes(buf),
+                Form::Hex => h.store_str(buf, crate::api::Prefix::Empty),
+                Form::HexPrefix => h.store_str(buf, crate::api::Prefix::WithVersion),
+            }))
+            .map_err(|p| format!("{}: store ({:?}) into a buffer of {} bytes panicked: {}", v.name, form, l, p))?;
+            let buf = &mut slab[..l];
+            match r {
+                Ok(k) if k == n => {}
+                other => return Err(format!("{}: store ({:?}) into a buffer of {} bytes (>= 2^32) returned {:?} instead of Ok({})", v.name, form, l, other, n)),
+            }
+            if buf[..n] != repr[..] {
+                return Err(format!("{}: store ({:?}) into a buffer of {} bytes wrote {:?}", v.name, form, l, &buf[..n]));
+            }
+            if let Some(i) = (n..n + 8192).chain(l - 8192..l).find(|&i| buf[i] != 0) {
+                return Err(format!("{}: store ({:?}) into a buffer of {} bytes modified byte {} beyond the advertised size {}", v.name, form, l, i, n));
+            }
+            buf[..n].fill(0);
+        }
+    }
+    Ok(evals)
+}
+
+pub const HUGE: usize = (1usize << 32) + 4096;
+
+fn run_hugebuf(ctx: &Ctx) -> CheckResult {
+    if ctx.tier == crate::ctx::Tier::Quick && ctx.config != "default" {
+        ctx.skipped("hugebuf: quick tier runs it in the default configuration only");
+        return Ok(());
+    }
+    let mut slab = vec![0u8; HUGE];
+    for va in ctx.api.variants() {
+        let v = va.v();
+        for b in ctx.sample_values(&format!("hugebuf/{}", v.name), 2, &crate::gens::hash_bytes_strategy(v)) {
+            match case_hugebuf(va, &b, &mut slab) {
+                Ok(n) => {
+                    ctx.ev.borrow_mut().evaluations += n;
+                    ctx.ev.borrow_mut().nontrivial_enumerated += n;
+                }
+                Err(m) => return Err(ctx.violation("hugebuf", m, json!({"variant": v.name, "bytes": hex(&b)}))),
+            }
+        }
+    }
+    // one full scan: nothing anywhere in the slab was written and left behind
+    if let Some(i) = slab.chunks(1 << 20).position(|c| c.iter().any(|&x| x != 0)) {
+        return Err(ctx.violation("hugebuf", format!("a stray write landed in MiB #{} of the 4 GiB slab", i), json!({"variant": "Normal", "bytes": hex(&vec![0u8; 35])})));
+    }
+    ctx.subcheck("hugebuf", 10);
+    ctx.ev.borrow_mut().sample(json!({"check": "hugebuf", "buffer_lengths": "2^32, 2^32+n-1, 2^32+n, 2^32+4096", "forms": 3}));
+    Ok(())
+}
+
+pub fn replay(ctx: &Ctx, check: &str, case: &Value) -> Result<(), String> {
+    if check == "hugebuf" {
+        let va = variant_of(ctx.api, case)?;
+        return case_hugebuf(va, &bytes_of(case, "bytes")?, &mut vec![0u8; HUGE]).map(|_| ());
+    }
     let live = Cell::new(true);
     let st = ctx.stats("replay", &live);
     let va = variant_of(ctx.api, case)?;
